@@ -494,6 +494,13 @@ def r06_9(ctx: Ctx):
     return out
 
 
+def r06_10(ctx: Ctx):
+    """R06.10 evaluations are reachable only through deme constructors and DemeTree.run_metaepoch: sprouting / stop-condition / reporting code is evaluation-free."""
+    from .common import who_may_evaluate
+
+    return who_may_evaluate(ctx, "R06.10")
+
+
 RULES = [
     ("R06.1", r06_1, 10),
     ("R06.2", r06_2, 5),
@@ -504,4 +511,5 @@ RULES = [
     ("R06.7", r06_7, 1),
     ("R06.8", r06_8, 1),
     ("R06.9", r06_9, 7),
+    ("R06.10", r06_10, 1),
 ]
